@@ -21,7 +21,7 @@ by explicit execution of the model (all calls sequential, each returned before t
 def cloneCfg : Cfg :=
   { env := [.sub 0 1, .withonly 1 0 0, .unsubinv 0 0 0, .pubinv 0 1 .pubSync [7]] }
 
-def clonePath : List Nat := [0, 3, 3, 2, 0, 1, 0, 2, 2, 2, 1, 1, 1]
+def clonePath : List Nat := [0, 2, 2, 2, 0, 1, 0, 2, 2, 2, 1, 1, 1]
 
 theorem clone_after_unsub_panics :
     ∃ (ls : List (Option Event)) (s : State),
@@ -63,7 +63,7 @@ theorem no_panic_partial (cfg : Cfg) (hd : CloneDiscipline cfg) :
 def nvCfg : Cfg :=
   { allowClone := false, env := [.sub 0 1, .pubinv 0 0 .pubSync [7], .allow 0 1, .unsubinv 0 0 0] }
 
-def nvPath : List Nat := [0, 3, 3, 3, 0, 2, 2, 2, 0, 2, 2, 1, 2, 2, 2, 0, 2]
+def nvPath : List Nat := [0, 2, 2, 3, 0, 2, 2, 2, 0, 2, 2, 1, 2, 2, 2, 0, 2]
 
 example : ∃ s, Conc.Reachable (sys nvCfg) s ∧ CloneDiscipline nvCfg ∧ s.delivered = [(0, 0, 0)] ∧
     isClosed s.chans 0 = true ∧ s.panicked = none := by
